@@ -5,10 +5,10 @@ from . import text_bounded
 ID = "C07"
 LEVEL = "other"
 MODES = ["gregorian"]
-FUNCS = ["data:TimePoint.__init__", "data:TimeZone.__init__"]
+FUNCS = ["data:TimePoint.__init__", "data:TimeZone.__init__", "parsers:TimePointParser._create_timepoint_from_info", "parsers:TimePointParser.process_time_zone_info"]
 LEMMAS = ["wiy.range", "opaque.dby.step", "opaque.dby.range"]
 CANARIES = ["canary.week52"]
-EXPLANATION = ("PROVED: the field-level accept/reject decision and field storage of TimePoint.__init__ (C09 contracts) which every notation feeds; memoisation soundness of parser/dumper caches. BOUNDED: decoding of text - the form catalogue (written from the property, not from parser_spec) x boundary/random values x parser configurations: fields, defaults, zone resolution, dump_as_parsed reproduction, basic-only acceptance, no basic/extended mixing, truncated forms.")
+EXPLANATION = ("PROVED: (P1) lexing determinism on the REAL compiled regex tables - for every documented complete date/time/zone form (regular languages written from the property) the first pattern in the real search order that can match covers the whole form, has the right notation key, is anchored and fixed-width and decodes a sample to the expected groups; a basic-only parser matches no extended-only form (177 regular-language obligations, z3); (P2) field assembly - _create_timepoint_from_info and process_time_zone_info executed on SYMBOLIC digit fields: year = +-(10000 X + 100 CC + YY), every field stored as spelled, defaults for omitted fields, Z and signed zones (sign applied to hours and minutes), decimals, BadInputError exactly for impossible fields; the field-level accept/reject decision and field storage of TimePoint.__init__ (C09 contracts) which every notation feeds; memoisation soundness of parser/dumper caches. BOUNDED: decoding of text - the form catalogue (written from the property, not from parser_spec) x boundary/random values x parser configurations: fields, defaults, zone resolution, dump_as_parsed reproduction, basic-only acceptance, no basic/extended mixing, truncated forms.")
 ASSUMPTIONS = ["text lexing/splitting is covered by the bounded grid only"]
 LEVEL_TEXT = "Field assembly target (constructor): proof; text decoding: bounded grid. Hence other."
 LEVEL_NOTE = "see DESIGN section 5/C07"
@@ -25,3 +25,173 @@ def custom(tier, seed, repo):
 
 def bounded(tier, seed, repo):
     return text_bounded.check_c07(tier, seed, repo)
+
+
+# ---------------------------------------------------------------- P1: lexing determinism
+# obligations on the REAL compiled regex tables (regular-language queries, z3)
+def _search_order(parser, which, **kw):
+    """The order in which the real get_*_info tries its patterns: observed by
+    running the real method over recording proxies (not re-implemented here)."""
+    import copy
+    order = []
+
+    class Proxy:
+        def __init__(self, rx, where):
+            self.rx, self.where = rx, where
+
+        def match(self, s):
+            order.append((self.where, self.rx))
+            return None
+    p = copy.copy(parser)
+    if which == "date":
+        p._date_regex_map = {fk: {tk: [[Proxy(rx, (fk, tk, ex)), ex] for rx, ex in lst]
+                                  for tk, lst in tm.items()}
+                             for fk, tm in parser._date_regex_map.items()}
+        fn = p.get_date_info
+    elif which == "time":
+        p._time_regex_map = {fk: {tk: [[Proxy(rx, (fk, tk, ex)), ex] for rx, ex in lst]
+                                  for tk, lst in tm.items()}
+                             for fk, tm in parser._time_regex_map.items()}
+        fn = p.get_time_info
+    else:
+        p._time_zone_regex_map = {fk: [[Proxy(rx, (fk, None, ex)), ex] for rx, ex in lst]
+                                  for fk, lst in parser._time_zone_regex_map.items()}
+        fn = p.get_time_zone_info
+    try:
+        fn("\x00", **kw)
+    except ValueError:
+        pass
+    return order
+
+
+def _raw_date(kind, f, x):
+    y = f["year"]
+    d = {"century": "%02d" % (abs(y) % 10000 // 100), "year_of_century": "%02d" % (abs(y) % 100)}
+    if kind.startswith("x"):
+        d["year_sign"] = "-" if y < 0 else "+"
+        d["expanded_year"] = "%0*d" % (x, abs(y) // 10000)
+    k = kind.lstrip("x")
+    if k == "cal":
+        d.update(month_of_year="%02d" % f["month_of_year"], day_of_month="%02d" % f["day_of_month"])
+    elif k == "ord":
+        d.update(day_of_year="%03d" % f["day_of_year"])
+    else:
+        d.update(week_of_year="%02d" % f["week_of_year"], day_of_week="%d" % f["day_of_week"])
+    return d
+
+
+def lexing_obligations(repo):
+    import sys
+    if repo not in sys.path:
+        sys.path.insert(0, repo)
+    import re as _re
+    from metomi.isodatetime.parsers import TimePointParser
+    from pyvc import relang
+    from . import forms as F
+    out = []
+
+    def ob(name, ok, detail):
+        out.append({"name": name, "ok": ok is True, "detail": detail, "backend": "z3-regex",
+                    "reproduced": False if ok is not True else None})
+    cache = {}
+
+    def lang(rx):
+        k = rx.pattern
+        if k not in cache:
+            cache[k] = relang.to_z3(rx)
+        return cache[k]
+
+    def first_match(order, LF, want_style, tag, sample, expect_groups):
+        for idx, ((fk, tk, ex), rx) in enumerate(order):
+            dj, wit = relang.disjoint(lang(rx), LF)
+            if dj is None:
+                return ob(tag + ".decided", None, "regex query undecided for %s" % ex)
+            if dj:
+                continue
+            inc, wit2 = relang.included(LF, lang(rx))
+            ob(tag + ".first-match-covers-form", inc,
+               "first pattern that can match is %r (%s/%s); counterexample text %r"
+               % (ex, fk, tk, wit2))
+            ob(tag + ".style", want_style in ("both", fk),
+               "matched under format key %r, form is %s" % (fk, want_style))
+            ob(tag + ".anchored-fixed-width", relang.anchored(rx) and (
+                relang.fixed_width(rx) or expect_groups is None or "frac" in expect_groups),
+               "pattern %r" % rx.pattern)
+            if expect_groups is not None:
+                m = rx.match(sample)
+                got = {k: v for k, v in (m.groupdict() if m else {}).items()
+                       if v is not None and k != "truncated"}
+                exp = {k: v for k, v in expect_groups.items() if k != "frac"}
+                if "frac" in expect_groups:
+                    got = {k: v for k, v in got.items() if not k.endswith("_decimal")}
+                ob(tag + ".groups", got == exp, "sample %r decodes to %r, expected %r"
+                   % (sample, got, exp))
+            return
+        ob(tag + ".some-pattern-matches", False, "no pattern of the table matches the form")
+
+    def none_match(patterns, LF, tag):
+        for rx, ex in patterns:
+            dj, wit = relang.disjoint(lang(rx), LF)
+            if dj is not True:
+                return ob(tag, dj, "pattern %r matches %r" % (ex, wit))
+        ob(tag, True, "no pattern of the basic-only tables matches the form")
+    for x in (2, 0):
+        P = TimePointParser(num_expanded_year_digits=x)
+        PB = TimePointParser(num_expanded_year_digits=x, allow_only_basic=True)
+        o_date_t = _search_order(P, "date", bad_types=["reduced"])
+        basic_pats = [(rx, ex) for fk, tm in PB._date_regex_map.items()
+                      for tk, lst in tm.items() for rx, ex in lst]
+        for name, df in F.date_forms(x).items():
+            LF = relang.to_z3(df["regex"])
+            y = -2004 if df["kind"].startswith("x") else 1985
+            sample_f = dict(year=y, month_of_year=4, day_of_month=12, day_of_year=102,
+                            week_of_year=15, day_of_week=5)
+            sample_f = {k: sample_f[k] for k in df["fields"]}
+            first_match(o_date_t, LF, df["style"], "lex[x=%d].date[%s]" % (x, name),
+                        df["render"](sample_f), _raw_date(df["kind"], sample_f, x))
+            if df["style"] == "extended":
+                none_match(basic_pats, LF, "lex[x=%d].only-basic-refuses[%s]" % (x, name))
+        if x == 2:
+            tforms, zforms = F.time_forms(), F.zone_forms()
+            for style in ("basic", "extended"):
+                other = ["extended"] if style == "basic" else ["basic"]
+                o_time = _search_order(P, "time", bad_formats=other, bad_types=["truncated"])
+                o_zone = _search_order(P, "zone", bad_formats=other)
+                sep = ":" if style == "extended" else ""
+                for tname, tf in tforms.items():
+                    if tf["style"] != style:
+                        continue
+                    flds = [f for f in tf["fields"] if f != "frac"]
+                    rx = sep.join("[0-9]{2}" for _ in flds)
+                    mark = {",": ",", ".": "\\."}.get(tname.split(":")[0][-1])
+                    if tf.get("decimal"):
+                        rx += mark + "[0-9]+"
+                    sample_f = dict(hour_of_day=6, minute_of_hour=58, second_of_minute=7,
+                                    frac="25")
+                    exp = {k: "%02d" % sample_f[k] for k in flds}
+                    if tf.get("decimal"):
+                        exp["frac"] = "25"
+                    first_match(o_time, relang.to_z3(rx), style,
+                                "lex.time[%s]" % tname, tf["render"](sample_f), exp)
+                for zname, zf in zforms.items():
+                    if zname == "none" or zf["style"] not in ("both", style):
+                        continue
+                    rx = {"Z": "Z", "hh": "[-+][0-9]{2}", "hhmm": "[-+][0-9]{4}",
+                          "hh:mm": "[-+][0-9]{2}:[0-9]{2}"}[zname]
+                    sample = zf["render"](dict(tzh=-3, tzm=-30))
+                    exp = {"Z": {"time_zone_utc": "Z"},
+                           "hh": {"time_zone_sign": "-", "time_zone_hour": "03"},
+                           "hhmm": {"time_zone_sign": "-", "time_zone_hour": "03",
+                                    "time_zone_minute": "30"},
+                           "hh:mm": {"time_zone_sign": "-", "time_zone_hour": "03",
+                                     "time_zone_minute": "30"}}[zname]
+                    first_match(o_zone, relang.to_z3(rx), style,
+                                "lex.zone[%s:%s]" % (zname, style), sample, exp)
+    return out
+
+
+_memo_custom = custom
+
+
+def custom(tier, seed, repo):
+    return _memo_custom(tier, seed, repo) + lexing_obligations(repo)
